@@ -60,34 +60,38 @@ structure CopyRes where
   failed : Bool
   w : Wr
   rest : List UInt8      -- the input after the bytes io.Copy took out of the reader
+  left : Int             -- `lr.N` after the copy: what the LimitedReader still had to deliver
   deriving DecidableEq, Repr
 
 /-- `lr.N = lim; n, err = io.Copy(w, lr)`: a LimitedReader with N <= 0 is at EOF; the
     underlying EOF ends the copy with a nil error; a writer failure ends it with the
     writer's error after `written` accepted bytes, the reader having lost `written + over`
-    (at most the available payload). -/
+    (at most the available payload). `left` is `lr.N` afterwards (limit minus bytes read). -/
 def copyN (w : Wr) (lim : Int) (bs : List UInt8) : CopyRes :=
-  if lim ≤ 0 then ⟨0, false, w, bs⟩ else
+  if lim ≤ 0 then ⟨0, false, w, bs, lim⟩ else
   let avail := min lim.toNat bs.length
   match w.budget with
-  | none => ⟨avail, false, { w with out := w.out ++ bs.take avail }, bs.drop avail⟩
+  | none => ⟨avail, false, { w with out := w.out ++ bs.take avail }, bs.drop avail, lim - avail⟩
   | some k =>
-    if avail ≤ k then ⟨avail, false, { w with budget := some (k - avail), out := w.out ++ bs.take avail }, bs.drop avail⟩
-    else ⟨k, true, { w with budget := some 0, out := w.out ++ bs.take k }, bs.drop (min avail (k + w.over))⟩
+    if avail ≤ k then ⟨avail, false, { w with budget := some (k - avail), out := w.out ++ bs.take avail }, bs.drop avail, lim - avail⟩
+    else ⟨k, true, { w with budget := some 0, out := w.out ++ bs.take k }, bs.drop (min avail (k + w.over)), lim - (min avail (k + w.over) : Nat)⟩
 
-/-- `if _, err2 := i.Discard(int(full - n)); err2 == nil { clean = true } else if err == nil { err = err2 }` -/
+/-- `if _, err2 := i.Discard(int(full)); err2 == nil { clean = true } else if err == nil { err = err2 }`
+    (the repaired code, a376be4: `full` is what is left of the payload plus the CRLF) -/
 def finishBlob (full : Int) (c : CopyRes) : Out :=
-  let k := wrap64 (full - c.written)
-  if k < 0 then ⟨c.written, if c.failed then .writer else .rd "io", false, c.rest, c.w⟩   -- bufio.ErrNegativeCount
-  else if k.toNat ≤ c.rest.length then ⟨c.written, if c.failed then .writer else .none, true, c.rest.drop k.toNat, c.w⟩
+  if full < 0 then ⟨c.written, if c.failed then .writer else .rd "io", false, c.rest, c.w⟩   -- bufio.ErrNegativeCount
+  else if full.toNat ≤ c.rest.length then ⟨c.written, if c.failed then .writer else .none, true, c.rest.drop full.toNat, c.w⟩
   else ⟨c.written, if c.failed then .writer else .rd "io", false, [], c.w⟩               -- EOF inside Discard
+
+/-- `full = lr.N + 2` (int64) -/
+def fullAfter (c : CopyRes) : Int := wrap64 (c.left + 2)
 
 /-- the `$` / `=` / `;` branch after a successful `readI` -/
 def blobCase (t : UInt8) (len : Int) (r : List UInt8) (w : Wr) : Out :=
   if len = -1 then ⟨0, .nilMsg, true, r, w⟩
-  else if len ≠ 0 then finishBlob (wrap64 (len + 2)) (copyN w len r)
+  else if len ≠ 0 then finishBlob (fullAfter (copyN w len r)) (copyN w len r)
   else if t = 59 then ⟨0, .none, true, r, w⟩
-  else finishBlob 2 ⟨0, false, w, r⟩
+  else finishBlob 2 ⟨0, false, w, r, 0⟩
 
 /-- `strconv.FormatInt(v, 10)` -/
 def fmtInt (v : Int) : List UInt8 := Rv.Spec.decI v
@@ -135,13 +139,13 @@ def streamTo (B : Nat) : Nat → Wr → List UInt8 → Out
       | some o => o
       | none => streamTo B f w (afterPush B t bs)
 
-/-- `nn, err, clean = streamTo(i, w); for n += nn; nn != 0 && clean && err == nil; n += nn { nn, err, clean = streamTo(i, w) }` -/
+/-- `nn, err, clean = streamTo(i, w); for n += nn; nn != 0 && clean && err == nil; n += nn { nn, err, clean = streamTo(i, w) }; if err != nil { clean = false }` -/
 def chunkLoop (B : Nat) : Nat → Nat → Wr → List UInt8 → Out
   | 0, acc, w, _ => ⟨acc, .rd "fuel", false, [], w⟩
   | f + 1, acc, w, bs =>
     let o := streamTo B f w bs
     if o.n ≠ 0 ∧ o.clean = true ∧ o.err = .none then chunkLoop B f (acc + o.n) o.w o.rest
-    else { o with n := acc + o.n }
+    else { o with n := acc + o.n, clean := o.clean && decide (o.err = .none) }
 end
 
 /-- one top-level `streamTo(i, w)` call on the stream `bs` -/
